@@ -112,6 +112,71 @@ pub fn run(ctx: &Ctx) -> Result<(), String> {
             }
         }
     }
+    // short status interval with per-client statistics under closed-loop load (sampled): the stats
+    // hand-off fires every 100 ms while the reporter drains once a second
+    {
+        let plans: Vec<(usize, i32)> = ctx.tier.pick(vec![(2, libc::SIGINT)], vec![(1, libc::SIGTERM), (2, libc::SIGINT), (4, libc::SIGTERM)]);
+        for (nw, sig) in plans {
+            let dir = crate::proc::scratch_dir();
+            let dirs = dir.display().to_string();
+            let (mut sp, port) = crate::proc::start_serving(
+                &|port| {
+                    let mut w = Written::base(port);
+                    w.set("num_workers", &nw.to_string());
+                    w.set("client_stats", "on");
+                    w.set("persistence_directory", &dirs);
+                    w.set("status_interval", "1");
+                    w
+                },
+                Source::File,
+                nw,
+                Duration::from_secs(20),
+            )?;
+            let lt_pk = rtref::crypto::public_key(&rtref::crypto::unhex(crate::proc::BASE_SEED_HEX).try_into().unwrap());
+            // closed-loop load from 8 threads that keeps running while the signal is delivered
+            let stop = std::sync::atomic::AtomicBool::new(false);
+            let answered_a = std::sync::atomic::AtomicUsize::new(0);
+            let (ex, secs) = std::thread::scope(|sc| {
+                for t in 0..8u64 {
+                    let stop = &stop;
+                    let answered_a = &answered_a;
+                    sc.spawn(move || {
+                        let sock = std::net::UdpSocket::bind("127.0.0.1:0").unwrap();
+                        sock.set_read_timeout(Some(Duration::from_millis(300))).unwrap();
+                        let addr: std::net::SocketAddr = format!("127.0.0.1:{}", port).parse().unwrap();
+                        let mut buf = [0u8; 2048];
+                        let mut k = 0u64;
+                        while !stop.load(std::sync::atomic::Ordering::Relaxed) {
+                            k += 1;
+                            let req = rtref::responder::std_request(Version::Classic, &crate::inproc::nonce((t << 32) + k, 64));
+                            let _ = sock.send_to(&req, addr);
+                            if sock.recv_from(&mut buf).is_ok() {
+                                answered_a.fetch_add(1, std::sync::atomic::Ordering::Relaxed);
+                            }
+                        }
+                    });
+                }
+                std::thread::sleep(Duration::from_millis(1600));
+                let t0 = Instant::now();
+                sp.signal(sig);
+                let ex = sp.wait_exit(Duration::from_secs(15));
+                let secs = t0.elapsed().as_secs_f64();
+                stop.store(true, std::sync::atomic::Ordering::Relaxed);
+                (ex, secs)
+            });
+            let answered = answered_a.load(std::sync::atomic::Ordering::Relaxed);
+            let _ = &lt_pk;
+            let se = sp.stderr();
+            let ok = matches!(ex, Some((Some(0), _, _))) && secs <= 5.0 && !se.contains("panicked");
+            sampled.push(json!({"num_workers":nw,"client_stats":true,"status_interval":1,"load":"8 closed-loop clients, still running at the signal","answered":answered,"signal":if sig == libc::SIGINT {"INT"} else {"TERM"},"exit":format!("{:?}", ex.map(|e| (e.0, e.1))),"seconds":(secs * 1000.0).round() / 1000.0}));
+            if !ok {
+                ctx.violation("wall-clock-shutdown", if ex.is_none() { "no-exit-15s" } else { "slow-or-unclean" }, "client_stats on/status_interval 1",
+                    json!({"kind":"wallclock-stats","num_workers":nw,"signal":sig,"exit":format!("{:?}", ex),"seconds":secs,"answered":answered}));
+            }
+            sp.kill();
+            let _ = std::fs::remove_dir_all(&dir);
+        }
+    }
     // open-loop flood with the project's own stress client (sampled): the queue is kept non-empty
     {
         let plans: Vec<(usize, i32)> = ctx.tier.pick(vec![(2, libc::SIGINT)], vec![(1, libc::SIGINT), (2, libc::SIGTERM), (4, libc::SIGINT), (8, libc::SIGTERM)]);
